@@ -72,7 +72,7 @@ def near_equal_large(rng, count):
     what a tolerance comparison (isclose) on bin sums, or single-precision sums, would confuse"""
     out = []
     for i in range(count):
-        B = rng.choice([10 ** 5, 10 ** 6, 10 ** 7])
+        B = rng.choice([10 ** 5, 10 ** 6, 10 ** 7, 250000000])     # 2.5e8: sums far beyond 2^24 (single precision) with at most 8 items still below 2^31
         k = rng.choice([2, 3, 3])
         # mostly a multiple of k items: then the balanced partitions' extreme sums are all relatively close to total/k (the perfect-partition bound)
         n = (rng.choice([6, 6, 8]) if k == 2 else 6) if i % 4 else rng.randint(5, 7)
@@ -223,6 +223,30 @@ def _planted_bins(rng, count, maxitems, C_choices, exact=True):
         for newi, oldi in enumerate(perm):
             newvals[newi] = vals[oldi]
             pos[oldi + 1] = newi + 1
+        out.append({"vals": newvals, "C": C, "cert": [[pos[i] for i in b] for b in cert]})
+    return out
+
+
+def planted_small_packings(rng, count):
+    """perfect packings of 10-14 items (3-4 bins of 2-5 items each, bin sizes 30..100) in random order: the optimum is the number of planted bins, and the
+    search of bin completion has long completions made of many small items to find (or wrongly discard)"""
+    out = []
+    for _ in range(count):
+        C = rng.choice([30, 50, 60, 100])
+        m = rng.choice([3, 3, 4])
+        vals, cert = [], []
+        for b in range(m):
+            per = rng.choice([2, 3, 3, 4, 5])
+            cuts = sorted(rng.sample(range(2, C - 1), per - 1))
+            parts = [b2 - a for a, b2 in zip([0] + cuts, cuts + [C])]
+            cert.append(list(range(len(vals) + 1, len(vals) + len(parts) + 1)))
+            vals += parts
+        if len(vals) > 14:
+            continue
+        perm = list(range(len(vals))); rng.shuffle(perm)
+        newvals = [0] * len(vals); pos = {}
+        for newi, oldi in enumerate(perm):
+            newvals[newi] = vals[oldi]; pos[oldi + 1] = newi + 1
         out.append({"vals": newvals, "C": C, "cert": [[pos[i] for i in b] for b in cert]})
     return out
 
